@@ -12,7 +12,7 @@ res={}
 for l in open(sys.argv[1]):
     try: d=json.loads(l)
     except: continue
-    if d.get('Test') and d.get('Action') in('pass','fail','skip') and '/' not in d['Test']:
+    if d.get('Test') and d.get('Action') in('pass','fail','skip'):
         res[d['Package']+'::'+d['Test']]=d['Action']
 ok=[t for t in want if res.get(t)=='pass']
 bad=[(t,res.get(t)) for t in want if res.get(t)!='pass']
